@@ -30,12 +30,12 @@ type c11 struct {
 }
 
 func checkC11(c *Ctx) {
-	c.Rule("C11.R1", "outside the constructor every store to the root is balanced, on every path, by the matching height adjustment (new root above ⇒ ++, root replaced by its child ⇒ --); every node creation site sets the node's level")
-	c.Rule("C11.R2", "parent links follow entries: every node literal initialises parent or becomes the root; every placement of an entry with a possibly non-nil child into a node's entries is paired with child.parent = that node, or the entry already belongs to that node")
-	c.Rule("C11.R3", "every mutation of a node's entries under Insert/Delete is followed, before the operation returns, by the upward pass that stores the recomputed envelope into the parent's entry; the pass itself visits every ancestor up to the root (no early exit, root recognised by identity or by a parent link that every root store clears) and repairs the node's own entry at each level")
-	c.Rule("C11.R4", "Insert changes size by exactly +1 on every path; Delete returns true only after removing one entry and decrementing size once, and returns false only on paths that performed no store to tree state")
-	c.Rule("C11.R5", "every append to the entries of a node that is linked into the tree (not one of the two groups a split is filling) is followed on every path by a test of len(entries) against MaxChildren whose overflow branch splits that node")
-	c.Rule("C11.R6", "intersect ⇔ closed boxes share a point, containsRect ⇔ r2 ⊆ r1, containsPoint ⇔ closed containment, enlarge/boundingBox = lattice join (all weak orderings, exhaustive); the search visits every entry whose box intersects the query and no other filter is applied")
+	c.Rule("C11.R1", "model evaluation of NewTree/Insert/Delete over three histories (fill, scattered drain to empty, refill; interleaved deletes of absent objects and duplicates; 36 boxes to height three) and several branching parameters, the comparisons of the insertion heuristics resolved once by the geometry and several times by arbitrary consistent orders: after every operation all leaves are at one depth and Depth() equals it, no node lacks a child it points to, and no call panics")
+	c.Rule("C11.R2", "model evaluation, same runs: every node reached through an entry is parent-linked to the node holding that entry")
+	c.Rule("C11.R3", "model evaluation, same runs: every inner entry's box is exactly the envelope of the boxes below it and every leaf entry's box is its object's box")
+	c.Rule("C11.R4", "model evaluation, same runs: Size() and the multiset of objects found in the leaves equal the history's; Delete of a stored object returns true and of an absent one false, leaving the tree unchanged — complemented by the path rule: Insert changes size by exactly +1 on every path, Delete decrements once after removing one entry and returns false only on paths without a store")
+	c.Rule("C11.R5", "model evaluation, same runs: no node holds more than MaxChildren entries — complemented by the path rule: every append to the entries of a linked node is followed by a test against MaxChildren whose overflow branch splits that node")
+	c.Rule("C11.R6", "every package-level relation over two boxes (found by signature) is closed intersection, containment or the lattice join, and the point relation closed containment, in all weak orderings of the coordinates; model evaluation: SearchIntersect returns exactly the stored objects (with multiplicity) whose boxes share a point with the query, for disjoint, touching, overlapping, degenerate and all-covering queries after every third operation")
 	p := c.P.Pkg("index/rtree")
 	if p == nil {
 		c.Unk("C11.R1", "index/rtree", token.NoPos, "package not loaded")
